@@ -26,7 +26,7 @@ func (c05) RequiredBuckets(tier string) []string {
 	for _, k := range []string{"point", "site", "range", "prange", "ambiguous", "join", "order", "c-range", "c-join", "c-order"} {
 		out = append(out, "kind|"+k)
 	}
-	return append(out, "cli:reverse", "cli:complement", "cli:reverse cache-on", "cli:complement cache-on")
+	return append(out, "cli:reverse", "cli:complement", "cli:reverse cache-on", "cli:complement cache-on", "cli:complement CONTIG-only record")
 }
 func (c05) Findings() []fw.Finding {
 	return []fw.Finding{
